@@ -273,6 +273,10 @@ Proof.
     destruct (norm e1), (norm e2); simpl; try reflexivity;
       match goal with |- context [Z.eqb ?x 0] => destruct (Z.eqb_spec x 0); subst; simpl; ring end.
   - rewrite <- IHe. destruct (norm e); simpl; reflexivity.
+  - rewrite IHe1, IHe2, IHe3, IHe4. reflexivity.
+  - rewrite IHe. reflexivity.
+  - rewrite IHe1, IHe2. reflexivity.
+  - rewrite IHe1, IHe2. reflexivity.
 Qed.
 
 Definition agree_on (en1 en2 : envd) (s : sym) : Prop :=
@@ -290,6 +294,9 @@ Proof.
     try (rewrite IHe1, IHe2; [reflexivity | | ]; intros s Hs; apply H; apply in_or_app; auto).
   - specialize (H s (or_introl eq_refl)). destruct s; simpl in *; auto.
   - exact (H (SVar v) (or_introl eq_refl) k).
+  - rewrite IHe; [reflexivity | exact H].
+  - rewrite IHe1, IHe2, IHe3, IHe4; [reflexivity | | | |]; intros s Hs; apply H;
+      repeat rewrite in_app_iff; auto.
   - rewrite IHe; [reflexivity | exact H].
 Qed.
 
@@ -376,8 +383,9 @@ Qed.
 Fixpoint nd (e : expr) : nat :=
   match e with
   | Delay a d => S (nd a + nd d)
-  | Add a b | Sub a b | Mul a b => nd a + nd b
-  | Neg a => nd a
+  | Add a b | Sub a b | Mul a b | Min a b | Max a b => nd a + nd b
+  | Neg a | Abs a => nd a
+  | Ite _ c1 c2 a b => nd c1 + nd c2 + nd a + nd b
   | _ => 0
   end.
 
@@ -398,6 +406,17 @@ Proof.
   - exists (n1 ++ n2 ++ [mkD a' b' loop]). simpl. split.
     + rewrite <- !app_assoc. reflexivity.
     + rewrite !app_length. simpl. lia.
+  - destruct (tr base loop e3 ((st ++ n1) ++ n2)) as [a3 s3] eqn:E3.
+    destruct (tr base loop e4 s3) as [a4 s4] eqn:E4.
+    destruct (IHe3 ((st ++ n1) ++ n2)) as [n3 [H3 L3]]. rewrite E3 in H3. simpl in H3. subst s3.
+    destruct (IHe4 (((st ++ n1) ++ n2) ++ n3)) as [n4 [H4 L4]]. rewrite E4 in H4. simpl in H4. subst s4.
+    exists (n1 ++ n2 ++ n3 ++ n4). simpl. split.
+    + rewrite <- !app_assoc. reflexivity.
+    + rewrite !app_length. lia.
+  - destruct (tr base loop e st) as [a' s1] eqn:E1.
+    destruct (IHe st) as [n1 [H1 L1]]. rewrite E1 in H1. simpl in *. exists n1. auto.
+  - exists (n1 ++ n2). simpl. rewrite app_assoc, app_length. auto.
+  - exists (n1 ++ n2). simpl. rewrite app_assoc, app_length. auto.
 Qed.
 
 (* the input created for a delay call is numbered by the delay calls completed before it:
